@@ -37,9 +37,9 @@ def run(ctx):
     ctx.analysed.update(res.facts)
     ctx.floor("endpoint-adjust", res.facts.get("adjust_grid_points", 0), 300, "grid points compared for adjust_slice_endpoint")
     ctx.floor("slice-routine", res.facts.get("slice_grid_points", 0), 5000, "grid points compared for the slice prefix")
-    check_guards(ctx, lib)
-    check_parse_index(ctx, lib)
-    check_index(ctx, lib)
+    ctx.attempt("check_guards", check_guards, ctx, lib)
+    ctx.attempt("check_parse_index", check_parse_index, ctx, lib)
+    ctx.attempt("check_index", check_index, ctx, lib)
 
 
 def check_guards(ctx, lib):
@@ -145,6 +145,8 @@ def check_parse_index(ctx, lib):
     sl = [s for s in aggs if s["rv"]["variant"] == "Slice"]
     ix = [s for s in aggs if s["rv"]["variant"] == "Index"]
     ctx.check(len(sl) == 1 and len(ix) == 1, rule, "nodes", f"parse_index builds one Slice and one Index node (found {len(sl)}, {len(ix)})", b.span)
+    from .c04 import check_top_level
+    check_top_level(ctx, lib, rule)
     if not sl or not ix:
         return
     vals = dict(zip(sl[0]["rv"]["fnames"], (o.of_operand(x) for x in sl[0]["rv"]["ops"])))
